@@ -1,6 +1,7 @@
 import IpcHub.Drv.Util
 import IpcHub.Model.CodecInst
 import IpcHub.Spec.H264Syntax
+import IpcHub.Spec.AscSyntax
 /-!
 Driver of C15 (codec parameter parsing).  Ops (the leading `c15` is already stripped):
 
@@ -9,7 +10,9 @@ Driver of C15 (codec parameter parsing).  Ops (the leading `c15` is already stri
   `g` ReadSe · `l` BitsLeft  →  `v1,v2,…` with `panic` as the last item when an op panicked
 * `epb <hex>`          → `model=<hex of RemoveH264or5EmulationBytes> ins=<hex of the standard's insertion>`
 * `h264dec <hex>`      → `ok dims=<w,h,fixed,fpsN/fpsD> dump=<fields>` | `err=<kind>`
-* `h264enc k=v …`      → `bytes=<hex> spec=<w,h,fixed,fps> raw=<fields expected>` then the same as h264dec for those bytes
+* `h264enc k=v …`      → `bytes=<hex> spec=<w,h,fixed,fps>` then the same as h264dec for those bytes
+* `ascdec <hex>`       → `ok meta=<channels,rate> dump=<fields>` | `err=<kind>`
+* `ascenc k=v …`       → `bytes=<hex> spec=<channels,rate>` then the same as ascdec for those bytes
 -/
 namespace IpcHub.Drv.C15
 open IpcHub.Drv IpcHub.Bits
@@ -165,6 +168,34 @@ def h264enc (kv : List (String × String)) : String :=
   let bytes := encSpsNal s
   s!"bytes={bytesToHex bytes} spec={croppedWidth s},{croppedHeight s},{boolStr (fixedFrameRate s)},{fpsStr (frameRate s)} " ++ h264dec bytes
 
+/-! ### AudioSpecificConfig -/
+
+open IpcHub.Asc in
+def ascdec (bytes : List UInt8) : String :=
+  match decode genCfg bytes with
+  | .ok a =>
+    let md := match metadataIsReady genCfg bytes with
+      | some (c, r) => s!"{c},{r}"
+      | none => "none"
+    s!"ok meta={md} dump={a.objectType},{a.samplingIndex},{a.sampleRate},{a.channelConfig},{a.sbr},{a.extObjectType},{a.extSamplingIndex},{a.extSampleRate},{a.extChannelConfig},{a.channels},{a.ps}"
+  | .error e => s!"err={faultStr e}"
+
+open IpcHub.AscSyntax in
+def ascOf (kv : List (String × String)) : AscSyntax :=
+  { aot := getN kv "aot", samplingFrequencyIndex := getN kv "sfi", samplingFrequency := getN kv "sf",
+    channelConfiguration := getN kv "cc", frameLengthFlag := getB kv "fl",
+    signalling :=
+      if getS kv "sig" == "hier" then .hierarchical (getB kv "ps") (getN kv "ei") (getN kv "ef")
+      else if getS kv "sig" == "back" then
+        .backward (getB kv "sbr") (getN kv "ei") (getN kv "ef") (if getS kv "ps" == "" then none else some (getB kv "ps"))
+      else .plain }
+
+open IpcHub.AscSyntax in
+def ascenc (kv : List (String × String)) : String :=
+  let s := ascOf kv
+  let bytes := encAsc s
+  s!"bytes={bytesToHex bytes} spec={streamChannels s},{streamRate s} " ++ ascdec bytes
+
 def handle : List String → String
   | "bits" :: hex :: ops =>
     match hexToBytes hex with
@@ -179,6 +210,11 @@ def handle : List String → String
     | some bs => h264dec bs
     | none => "bad-op"
   | "h264enc" :: kv => h264enc (kvOf kv)
+  | ["ascdec", hex] =>
+    match hexToBytes hex with
+    | some bs => ascdec bs
+    | none => "bad-op"
+  | "ascenc" :: kv => ascenc (kvOf kv)
   | _ => "bad-op"
 
 end IpcHub.Drv.C15
